@@ -9,3 +9,16 @@ func IsDistributionFilled(distribution map[uint]uint) bool {
 
 	return true
 }
+
+// Checks that every one of the specified priorities got a nonzero quantity. Unlike
+// IsDistributionFilled it does not depend on the divider creating map entries for
+// priorities to which it gives nothing.
+func IsPrioritiesFilled(priorities []uint, distribution map[uint]uint) bool {
+	for _, priority := range priorities {
+		if distribution[priority] == 0 {
+			return false
+		}
+	}
+
+	return true
+}
